@@ -16,10 +16,11 @@ import (
 )
 
 type Clause struct {
-	Label string
-	Text  string
-	File  string
-	Line  int
+	Label   string
+	Text    string
+	File    string
+	Line    int
+	Assumed bool // a postcondition that is assumed, not proved (keyword `assumes-post`); listed in evidence
 }
 
 type LoopSpec struct {
@@ -208,12 +209,12 @@ func (w *World) parseContractFile(path string) error {
 			lbl, txt := splitLabel(rest)
 			cur.Assumes = append(cur.Assumes, Clause{Label: lbl, Text: txt, File: path, Line: lineNo})
 			lastText = &cur.Assumes[len(cur.Assumes)-1].Text
-		case "requires", "ensures":
+		case "requires", "ensures", "assumes-post":
 			if cur == nil {
 				return fail("%s outside func", kw)
 			}
 			lbl, txt := splitLabel(rest)
-			c := Clause{Label: lbl, Text: txt, File: path, Line: lineNo}
+			c := Clause{Label: lbl, Text: txt, File: path, Line: lineNo, Assumed: kw == "assumes-post"}
 			if kw == "requires" {
 				cur.Requires = append(cur.Requires, c)
 				lastText = &cur.Requires[len(cur.Requires)-1].Text
